@@ -88,7 +88,9 @@ static void drv_setup(int argc, char **argv)
 static void drv_header(jb_t *b)
 {
     int i, k, m;
-    jb_printf(b, "\"NE\":%d,\"maxb\":%d,\"key\":[", NE, MAXB);
+    jb_printf(b, "\"NE\":%d,\"maxb\":%d,\"funcs\":[", NE, MAXB);         /* the hash function ids a resize is tried with */
+    for (i = 0; i <= (BAD ? 6 : NF); i++) if (i != 3) jb_printf(b, "%s%d", i ? "," : "", i);
+    jb_puts(b, "],\"key\":[");
     for (i = 1; i <= NE; i++) jb_printf(b, "%s%zu", i > 1 ? "," : "", keyof[i]);
     /* table of cstl_hash_mul over the scope's keys and bucket counts (the model
      * cannot compute single-precision products; see C17 for the range property) */
